@@ -123,7 +123,29 @@ fn gen_sources(tape: &mut Tape) -> (Sources, bool) {
     let cfg = GenCfg { max_decls: 14, max_resources: 4, ..GenCfg::full() };
     let (prog, labels) = Gen::new(tape, cfg).program();
     let mappy = labels.contains("at-reference") || labels.contains("rec") || labels.contains("application") || labels.contains("multi-module");
-    (to_sources(&render_plain(&prog)), mappy)
+    let mut sources = to_sources(&render_plain(&prog));
+    // One case in six: two more modules that are imported without a qualifier and declare the same
+    // names with different values (the later `use` wins; which one that is may not depend on the
+    // process).
+    if tape.chance(1, 6) {
+        let n = tape.range(2, 4);
+        let prims = ["num", "str", "bool", "int", "uri"];
+        let mut uses = String::new();
+        for m in 0..n {
+            let name = format!("zclash{m}.oal");
+            let mut text = String::new();
+            for w in 0..3 {
+                text.push_str(&format!("let zw{w} = {} ;\n", prims[(m + w) % prims.len()]));
+            }
+            sources.files.insert(name.clone(), text);
+            uses.push_str(&format!("use \"{name}\" ;\n"));
+        }
+        let main = sources.main.clone();
+        let text = sources.files.get_mut(&main).unwrap();
+        *text = format!("{uses}{text}res /zclash on get -> < {{ 'a zw0 , 'b zw1 , 'c zw2 }} > ;\n");
+        return (sources, true);
+    }
+    (sources, mappy)
 }
 
 impl Property for C06 {
